@@ -154,6 +154,8 @@ def run_translator(ck):
            "Definition RU := Eval vm_compute in map rt_handler (filter (fun r => negb (table_unambiguous (rt_parsers r))) gen_routes).\nPrint RU.\n"
            "Definition RP := Eval vm_compute in map snd (filter (fun p => negb (is_some (find_route gen_routes (snd p)))) gen_paths).\nPrint RP.\n"
            "Definition NP := Eval vm_compute in Z.of_nat (List.length gen_paths).\nPrint NP.\n"
+           "Definition EO := Eval vm_compute in entries_ok gen_on_entries_cols gen_spl_fields gen_tsd_fields gen_spl_consumed gen_tsd_consumed.\nPrint EO.\n"
+           "Definition EC := Eval vm_compute in map (fun c => let '(f, fn, _, a) := c in (f, fn, a)) (filter (fun c => negb (entries_call_ok c)) gen_on_entries_calls).\nPrint EC.\n"
            "Definition US := Eval vm_compute in unaccounted_sites gen_handler_side_sites.\nPrint US.\n"
            "Definition UF := Eval vm_compute in filter (fun x => negb (existsb (String.eqb x) handler_side_functions_model)) gen_handler_side_functions.\nPrint UF.\n"
            "Definition FS := Eval vm_compute in map rt_handler (filter (fun r => negb (first_pre_is_service r)) gen_routes).\nPrint FS.\n"
@@ -206,6 +208,11 @@ def run_translator(ck):
     ck.obligation("Content-Type dispatch over the parser map cannot depend on map iteration order (no key is a prefix of another)",
                   val("RU") == "[]", "ambiguous tables: " + val("RU"))
     ck.obligation("every path registered in router/*.go with a request pipeline has a modelled route", val("RP") == "[]", "paths without route: " + val("RP"))
+    ck.obligation("onEntries appends every slice field of TimeSamplesData / TimeSeriesData exactly once, resets on flush; the sample and "
+                  "time-series insert services read only those fields (log_batches_are_rectangular)", val("EO") == "true",
+                  "entries_ok over the generated onEntries = " + val("EO"))
+    ck.obligation("every call of onEntries passes one-element literals or comes from a decoder whose four slices are built together (allow-list)",
+                  val("EC") == "[]", "call sites not accounted for: " + val("EC"))
     ck.obligation("every index / slice / type assertion that runs on the handler goroutine (outside tamePanic) is allow-listed with its reason",
                   val("US") == "[]", "unaccounted sites (file, function, kind, expression): " + val("US"))
     ck.obligation("only setters, resets and constructors of package unmarshal run on the handler goroutine", val("UF") == "[]",
@@ -447,6 +454,29 @@ def pcase_to_coq(c):
         OUTCOME.get(o["outcome"], "OOther"), coq_list(obs))
 
 
+def lcase_to_coq(c):
+    evs = c.get("events") or []
+    sizes = c.get("sizes") or [0] * len(evs)
+    series = c.get("series") or [0] * len(evs)
+    end = "PendNil"
+    if evs and evs[-1]["op"] == "err":
+        end = "(PendErr %s)" % b(evs[-1].get("typed"))
+    elif evs and evs[-1]["op"] == "panic":
+        end = "PendPanic"
+    ents = []
+    for ev, sz, sr in zip(evs, sizes, series):
+        if ev["op"] == "entries":
+            ents.append("{| en_lbl_short := %s; en_ts := %d%%nat; en_msg := %d%%nat; en_val := %d%%nat; en_types := %d%%nat; en_bad_type := %s; "
+                        "en_series := %d%%nat; en_bytes := %d%%N |}" % (
+                            b(ev.get("lbl_short")), ev.get("nts", 0), ev.get("nmsg", 0), ev.get("nval", 0), ev.get("ntypes", 0),
+                            b(ev.get("ntypes", 0) > 0 and ev.get("type", 0) >= 3), sr, sz))
+    o = c["obs"]
+    svc = {"spl": 3, "ts": 4}
+    obs = ["(%d, %s)" % (svc.get(x["svc"], 9), coq_list(["%d%%N" % n for n in (x.get("cols") or [])])) for x in (o.get("batches") or [])]
+    return "{| lc_id := %d; lc_events := %s; lc_end := %s; lc_outcome := %s; lc_batches := %s |}" % (
+        c["id"], coq_list(ents), end, OUTCOME.get(o["outcome"], "OOther"), coq_list(obs))
+
+
 PIPE_CORPUS = os.path.join(HERE, "corpus", "C05", "pipe.jsonl")
 
 
@@ -498,9 +528,11 @@ def run_pipe(ck):
     txt = ("From Coq Require Import List String Ascii ZArith NArith Bool.\n"
            "From Qryn Require Import model.IngestRobust model.IngestPipe gen.GenGoroutinesWriter.\n"
            "Import ListNotations.\nOpen Scope Z_scope.\n"
-           "Definition cases : list pcase := [\n  " + ";\n  ".join(pcase_to_coq(c) for c in cases) + "].\n"
-           "Definition M := Eval vm_compute in pipe_mismatches gen_on_span_cols gen_spans_fields gen_attrs_fields cases.\nPrint M.\n"
-           "Definition V := Eval vm_compute in pipe_spec_violations cases.\nPrint V.\n")
+           "Definition cases : list pcase := [\n  " + ";\n  ".join(pcase_to_coq(c) for c in cases if c["kind"] != "logs") + "].\n"
+           "Definition lcases : list lcase := [\n  " + ";\n  ".join(lcase_to_coq(c) for c in cases if c["kind"] == "logs") + "].\n"
+           "Definition M := Eval vm_compute in (pipe_mismatches gen_on_span_cols gen_spans_fields gen_attrs_fields cases "
+           "++ lpipe_mismatches gen_on_entries_cols gen_spl_fields gen_tsd_fields lcases)%list.\nPrint M.\n"
+           "Definition V := Eval vm_compute in (pipe_spec_violations cases ++ lpipe_spec_violations lcases)%list.\nPrint V.\n")
     rc, out = ck.coq_eval("C05_pipe", txt)
     flat = " ".join(out.split())
     m = re.search(r"M = \[(.*?)\]\s*: list Z", flat)
@@ -512,9 +544,10 @@ def run_pipe(ck):
     viol = [int(x) for x in re.findall(r"-?\d+", v.group(1))]
     byid = {c["id"]: c for c in cases}
     ck.obligation("pipeline correspondence: on %d scripted-decoder requests the real Build/doParse/doPush/parserDoer/onSpan/onProfile give the status class and "
-                  "exactly the batches (every column length, any order of the push goroutines) that the model's interpreter over the regenerated onSpan predicts" % len(cases),
+                  "exactly the batches (every column length, any order of the push goroutines) that the model's interpreter over the regenerated onSpan / onEntries predicts" % len(cases),
                   not mism, "mismatching pipefuzz case ids: %s" % mism[:10])
-    ck.obligation("pipeline oracle: every scripted-decoder request is answered, leaves no goroutine behind, and everything that reaches an insert service is rectangular",
+    ck.obligation("pipeline oracle: every scripted-decoder request is answered, leaves no goroutine behind, and everything that reaches an insert service is rectangular "
+                  "(logs: whenever the scripted decoder handed over four slices of one length)",
                   not viol, "violating pipefuzz case ids: %s" % viol[:10])
 
     def size(c):
@@ -539,11 +572,15 @@ def run_pipe(ck):
             distinct.add(hashlib.sha1(json.dumps([c["kind"], c["events"]], sort_keys=True).encode()).hexdigest())
     ck.coverage["evaluations"] += len(cases)
     ck.coverage["distinct_nontrivial"] += len(distinct)
-    ck.coverage["rule"] += ("pipe: scripted decoder behind the real pipeline (0-6 spans/profiles with any id widths, keys, values, sizes incl. > 1 MiB flushes; "
+    ck.coverage["rule"] += ("pipe: scripted decoder behind the real pipeline (0-6 spans / profiles / onEntries calls with any id widths, keys, values, slice lengths, sample types, "
+                            "short label pairs, sizes incl. > 1 MiB flushes; "
                             "then nil / typed error / plain error / panic); non-trivial = at least one event; distinct by sha1 of the script. ")
     ck.extra["pipefuzz_distribution"] = {"classes": dict(sorted(hist.items())), "outcomes": dict(sorted(outc.items())),
                                          "with_flush": sum(1 for c in cases if "/big" in c["class"]),
                                          "short_vals_panic": sum(1 for c in cases if "short-vals" in c["class"]),
+                                         "logs_unequal_lengths": sum(1 for c in cases if "/unequal" in c["class"]),
+                                         "logs_torn_batches_observed_(contract_broken_by_the_script)": sum(
+                                             1 for c in cases if c["kind"] == "logs" and any(len(set(x.get("cols") or [])) > 1 for x in (c["obs"].get("batches") or []))),
                                          "batches_observed": sum(len(c["obs"].get("batches") or []) for c in cases)}
     ck.add_samples([{"class": c["class"], "events": c["events"][:4], "obs": c["obs"]} for c in cases if "short-vals" in c["class"]][:1])
 
